@@ -167,6 +167,12 @@ def run(ctx, scale=1):
     n_fixed = (120 if ctx.quick else 400) * scale
     n_rand = (120 if ctx.quick else 400) * scale
     stmts = [fixed.statement() for _ in range(n_fixed)] + [g.statement() for _ in range(n_rand)]
+    # quoted texts side by side: a string literal followed by a single-quoted alias (with and without AS), two
+    # literals as arguments, a literal behind a quoted name — a line break between two quoted texts is a gap like any other
+    Q = lambda *ts: [(t, "kw" if t.lower() in ("select", "from", "as", "where", "and") else ("p" if t in (",", "(", ")", "=") else ("lit" if t[0] in "'0123456789" else "id"))) for t in ts]
+    stmts += [("quoted-neighbours", Q("select", "'s1'", "'a2'", ",", "c3", "'a4'", "from", "t5")),
+              ("quoted-neighbours", Q("select", "'s1'", "as", "'a2'", ",", "f6", "(", "'s7'", ",", "'s8'", ")", "from", "t5", "where", "c9", "=", "'s10'")),
+              ("quoted-neighbours", Q("select", '"q1"', "'a2'", ",", "`q3`", "'a4'", "from", "t5", "'x6'"))]
     jobs = []       # (sql, meta)
     for si, (kind, toks) in enumerate(stmts):
         base = GT.text(toks)
